@@ -180,6 +180,11 @@ def check(run):
         specs, t, gamma, pts, psd = setup(rng, quick, lmax=3)
         alpha = [0, 0.5, 1, -0.375, 2.25, 1.0][n % 6]
         fields_case(run, specs, t, gamma, pts, "general" if n % 2 else "direct", psd, alpha)
+    # alpha given as numpy float scalars (elements of an array, results of numpy arithmetic) and as Python ints
+    for n, alpha in enumerate([np.float64(0.25), np.linspace(-0.5, 0.5, 5)[1], np.float64(0.0), 2, 0, np.sqrt(2.0)]):
+        specs, t, gamma, pts, psd = setup(rng, quick, lmax=2)
+        fields_case(run, specs, t, gamma, pts, "general" if n % 2 else "direct", psd, alpha)
+        run.count("alpha of type " + type(alpha).__name__)
     # alpha in R: tiny non-zero values; density matrices with exact zeros on the diagonal (with and without transformation)
     from checks.common import zero_diag_symmetric
     for n, alpha in enumerate([4e-9, -1e-12, 1e-300, -2.5e-7] if quick else [4e-9, -1e-12, 1e-300, -2.5e-7, 1e-8, -1e-8, 3e-16, 1e-5]):
